@@ -75,7 +75,9 @@ def check_one(case, ctx, deep):
                 labels = [names[i] for i in subset]
                 seq = labels + [rnd.choice(labels) for _ in range(rnd.randint(0, 2))]
                 rnd.shuffle(seq)
-                form = rnd.choice(['list', 'tuple'])  # re-iterable collections only (DESIGN.md 5, C02)
+                # re-iterable collections; a one-shot iterator only of OBJECT labels (DESIGN.md 10.4: the lookup tries
+                # the argument as objects first, so an iterator of property labels is spent before they are looked at)
+                form = rnd.choice(['list', 'tuple', 'set', 'frozenset', 'dict', 'keys'] + (['iter'] if side == 'o' else []))
                 got = ctx.call('context[]', q, context.__getitem__, tuple(labels))
                 ctx.check(got == want, 'context[]', q, lambda: f'context[{labels}] = {got!r}, want {want!r}')
                 got2 = ctx.call('context[](form)', q, context.__getitem__, gen.as_form(form, seq))
